@@ -106,7 +106,8 @@ TMutateBegin ==
 
 TSweep ==
     /\ IsEvent("Sweep")
-    /\ LET o == [mask |-> ToBools(Ev.mask), prop |-> ToRecs(Ev.prop), slots |-> ToSlots(Ev.slots), dEvals |-> Ev.dEvals] IN
+    /\ LET o == [mask |-> ToBools(Ev.mask), prop |-> ToRecs(Ev.prop), slots |-> ToSlots(Ev.slots), dEvals |-> Ev.dEvals,
+                 sigmaOK |-> Ev.sigmaOK] IN
        /\ SweepU(o)
        /\ Step(Failing(PcOk(pc = "mutating") @@ SW_Clauses(o)))
 
@@ -119,7 +120,7 @@ TMutateEnd ==
 TCommit ==
     /\ IsEvent("Commit")
     /\ LET o == [batch |-> ToRecs(Ev.batch), histLen |-> Ev.histLen, keyLens |-> Ev.keyLens, prefixSame |-> Ev.prefixSame,
-                 blobsOK |-> Ev.blobsOK] IN
+                 blobsOK |-> Ev.blobsOK, scalarsOK |-> Ev.scalarsOK] IN
        /\ CommitU(o)
        /\ Step(Failing(PcOk(pc = "mutated") @@ CM_Clauses(o)))
 
